@@ -722,6 +722,13 @@ impl Actor {
             }
         };
 
+        // No further request is processed. Close the channel and drop what is still queued
+        // behind the shutdown request: dropping a request drops its reply sender, so the caller
+        // gets an error instead of waiting forever for a reply that never comes (the queue
+        // itself lives as long as any handle does).
+        self.action_rx.close();
+        while self.action_rx.try_recv().is_ok() {}
+
         if let Err(cause) = self.store.flush() {
             warn!(?cause, "failed to flush store");
         }
